@@ -83,6 +83,11 @@ def propagate_fft(wavefront, pixelscale, shape=None, oversample=2,
         field = lentil.pad(wavefront.field, fft_shape)
         field = _fft2(field)
     
+    if tuple(shape_out) != field.shape:
+        # keep only the requested (centred) output samples; the rest of the
+        # FFT grid is not part of the result
+        field = lentil.field.insert(Field(data=field), np.zeros(shape_out, dtype=complex))
+
     out.data.append(Field(data=field, pixelscale=pixelscale/oversample))
 
     return out
